@@ -9,6 +9,7 @@ impl ReaderH {
 }
 pub open spec fn block_in_file(b: Block, sys: Sys) -> bool {
     sys.files@.contains_key(b.mmap.file) && b.offset + b.limit <= sys.files@[b.mmap.file].len() && b.offset + b.limit <= 0x7fff_ffff_ffff
+    && b.mmap.file == file_of_path(b.file_path@)
 }
 pub open spec fn blocks_disjoint(a: Block, b: Block) -> bool {
     a.mmap.file != b.mmap.file || a.offset + a.limit <= b.offset || b.offset + b.limit <= a.offset
@@ -234,4 +235,11 @@ pub proof fn lemma_rollback_done(plan: Seq<(Block, u64, usize)>, batch: Seq<&[u8
         assert(s0.files@.contains_key(plan[i].0.mmap.file));
         if i < k { } else { assert(region_same(s0, s1, plan[i], need_of(batch, i))); }
     }
+}
+
+pub proof fn lemma_plan_ok_ext(plan: Seq<(Block, u64, usize)>, batch: Seq<&[u8]>, a: Sys, b: Sys)
+    requires a.files == b.files, plan_ok(plan, batch, a),
+    ensures plan_ok(plan, batch, b), plan_inside_files(plan, b), untouched_from(plan, batch, b, a, 0), same_shape(b, a),
+{
+    assert forall|i: int| 0 <= i < plan.len() implies region_same(b, a, #[trigger] plan[i], need_of(batch, i)) by { assert(block_in_file(plan[i].0, a)); }
 }
